@@ -53,6 +53,34 @@ def run(facts, res):
     for b in leaf:
         n7 += check_addressing(b, facts, res)
     res.floor("S7", "addressing sites of leaf backends (memory map key, directory file name)", n7, 1 + ("filesystemadapter" in feat))
+    # S8: a persistent backend can be opened on what it stored before: the statements its constructors run against an existing store are
+    # idempotent (`CREATE TABLE IF NOT EXISTS`; create_dir_all for the directory backend is classified "container" under S1)
+    res.rule("S8", "persistent backends reopen: schema creation in the SQLite constructors is IF NOT EXISTS")
+    n8 = 0
+    for ob in facts.repo_bodies():
+        if not ob.path.startswith("sqliteadapter::SqliteAdapter::") and "sqliteadapter::SqliteAdapter" not in (ob.impl_adt or ""):
+            continue
+        if ob.impl_trait:
+            continue
+        from ..common import members_of as _mo8
+        opens_file = any(t.callee is not None and t.callee.krate == "rusqlite" and t.callee.name in ("open", "open_with_flags")
+                         for mb_ in _mo8(facts, ob) for _, t in mb_.calls())
+        if not opens_file or not ob.public:
+            continue
+        for mb_ in _mo8(facts, ob):
+            for (sql, bi, t) in sql_literals(mb_):
+                u = " ".join(sql.upper().split())
+                if not u.startswith("CREATE"):
+                    continue
+                n8 += 1
+                ok = "IF NOT EXISTS" in u
+                res.instance("S8", "%s (opens a database file) runs %r: idempotent on an existing store: %s" % (ob.path, sql[:60], ok), mb_.loc(t.line))
+                if not ok:
+                    res.violation("S8", "SqliteAdapter|schema-creation-not-idempotent",
+                                  "%s runs %r on the database it opened: on a database that already holds the table the statement fails (and the result is "
+                                  "unwrapped), so a stored replica cannot be opened again" % (ob.path, sql[:80]), mb_.loc(t.line))
+    if "sqlitedbadapter" in feat:
+        res.floor("S8", "schema statements in SQLite constructors that open a file", n8, 1)
     for b in wrap:
         check_wrapper(b, facts, res)
         if b.name() != "DynAdapter":
@@ -121,6 +149,18 @@ def check_addressing(b, facts, res):
             if not ok:
                 res.violation("S7", "%s|map-key-not-the-key" % b.name(),
                               "%s keys its store by a transformed key (%s)" % (body.path, callee_name(r) if r[0] == "call" else r[0]), body.loc(t.line))
+    # S7b: no byte-range slicing of the key (`&key[..2]` panics for a key shorter than the range or when the offset falls inside a
+    # multi-byte character; the other backends accept such keys): `str::get(range)` is the non-panicking form
+    for body in bodies:
+        for bi, t in body.calls():
+            c = t.callee
+            if c is None or c.name not in ("index", "index_mut") or (c.self_ty or "") != "str" or not t.args:
+                continue
+            r = _view_root(arg_term(body, t, 0, 24))
+            if r[0] == "param" and "str" in body.local_ty(r[1]):
+                res.violation("S7", "%s|key-sliced-by-byte-range" % b.name(),
+                              "%s slices the key argument by a byte range (%s): a key shorter than the range, or with a multi-byte character across its end, "
+                              "makes the backend panic where the other backends store the item" % (body.path, (c.args or ["?", "?"])[-1]), body.loc(t.line))
     return n
 
 
@@ -459,6 +499,14 @@ def check_wrapper(b, facts, res):
                 ls = sorted({x[2] for x in walk(k) if x[0] == "const" and x[1] == "str" and x[2]})
                 pn = "ext" if m == "list_objects" else "key"
                 passes = any(x[0] == "param" and x[2] == pn for x in walk(k))
+                if m in lits and lits[m][0] != tuple(ls):
+                    # two delegations of one method under different literals: the backend key is no longer a function of the key alone
+                    # (e.g. chosen by the size of the payload), so the backend's write-once guard protects each variant separately and a
+                    # second write to the key can land beside the first
+                    res.violation("S3", "%s|%s-backend-key-varies" % (b.name(), m),
+                                  "%s::%s hands the backend the key under different literals (%s and %s): which backend item a key maps to depends on "
+                                  "more than the key, a second write can be stored next to the first and reads can return either" % (
+                                      b.name(), m, list(lits[m][0]), ls), body.loc(t.line))
                 lits[m] = (tuple(ls), passes)
                 if not passes:
                     res.violation("S3", "%s|%s-drops-%s" % (b.name(), m, pn), "%s::%s does not pass its %s on to the backend" % (b.name(), m, pn), body.loc(t.line))
@@ -489,21 +537,24 @@ def check_wrapper(b, facts, res):
     res.instance("S3", "%s: literals appended read/write/list = %s" % (b.name(), {k: v[0] for k, v in lits.items()}), None)
     if len(vals) > 1:
         res.violation("S3", "%s|suffix-literals-differ" % b.name(), "%s appends different literals in its methods: %s" % (b.name(), lits))
-    # listing strips the literal
+    # listing: the delegate is asked for ext + literal and (S2, or this same rule for a nested wrapper) removes that whole suffix, so
+    # the names it returns are already the caller's: the wrapper hands them on unchanged. Stripping the literal once more eats into
+    # keys whose stem happens to end with it (`b.flate.delta` listed by ".delta" comes back as `b`), which no plain backend does.
     lit = next(iter(vals)) if vals else ()
     lb = b.methods.get("list_objects")
     if lit and lb is not None:
-        stripped = set()
+        altered = set()
         for cb in b.reach("list_objects"):
             for bi, t in cb.calls():
-                if t.callee is not None and t.callee.name in ("trim_end_matches", "strip_suffix", "trim_suffix"):
-                    for x in walk(arg_term(cb, t, 1, 8)):
-                        if x[0] == "const" and x[1] == "str":
-                            stripped.add(x[2])
-        res.instance("S3", "%s::list_objects strips %s" % (b.name(), sorted(stripped)), lb.loc())
-        if set(lit) != stripped:
-            res.violation("S3", "%s|listing-does-not-strip-own-literal" % b.name(),
-                          "%s::list_objects appends %s to ext but strips %s from the results" % (b.name(), list(lit), sorted(stripped)), lb.loc())
+                if t.callee is not None and t.callee.name in ("trim_end_matches", "strip_suffix", "trim_suffix", "trim_matches", "trim_start_matches", "strip_prefix",
+                                                              "replace", "replacen", "truncate", "split", "rsplit", "split_once", "rsplit_once",
+                                                              "to_lowercase", "to_uppercase", "trim", "trim_end", "trim_start"):
+                    altered.add(t.callee.name)
+        res.instance("S3", "%s::list_objects hands the delegate's names on unchanged (string-altering calls: %s)" % (b.name(), sorted(altered)), lb.loc())
+        if altered:
+            res.violation("S3", "%s|listing-alters-names:%s" % (b.name(), ",".join(sorted(altered))),
+                          "%s::list_objects asks the backend for ext + %s (the backend removes that whole suffix) and then applies %s to the names: a key "
+                          "whose stem ends with the literal is listed under a different name than on a plain backend" % (b.name(), list(lit), sorted(altered)), lb.loc())
 
 
 # ------------------------------------------------------------------------------ S4
